@@ -312,6 +312,27 @@ def _network(arr, metric, kw, par, variant, R_plot, missing, acc,
                 acc.v("RecurrenceNetwork.%s:adjacency:%s" % (setter, tag),
                       "%s %r: after the setter the adjacency is not R "
                       "without its diagonal" % (metric, par), A2, want)
+            if k == "adaptive_neighborhood_size" and len(R_plot) >= 3:
+                # the optional processing order is a node list: plot and
+                # network must use it alike
+                n_ = len(R_plot)
+                order = np.array(list(range(n_ - 1, -1, -1)))
+                acc.evals += 1
+                try:
+                    rp = _mk_rp("RecurrencePlot", arr, metric, kw, **par)
+                    rp.set_adaptive_neighborhood_size(val, order.copy())
+                    net.set_adaptive_neighborhood_size(val, order.copy())
+                    Rp = _mat(rp.recurrence_matrix())
+                    Rn = _mat(net.recurrence_matrix())
+                    if Rp.shape != Rn.shape or not np.array_equal(Rp, Rn):
+                        acc.v("RecurrenceNetwork.set_adaptive_neighborhood_"
+                              "size:order-ignored", "%s size %r order %s: "
+                              "R of the network differs from R of the plot "
+                              "for the same processing order" % (
+                                  metric, val, order.tolist()), Rn, Rp)
+                except Exception as e:   # noqa
+                    acc.v("RecurrenceNetwork.set_adaptive_neighborhood_size:"
+                          "raises:order", _exc(e), _exc(e), "a network")
 
 
 SETTERS = {"threshold": "set_fixed_threshold",
